@@ -7,6 +7,7 @@ for n in $names; do
   d=seeded/$n
   pid=$(python3 -c "import json;print(json.load(open('$d/meta.json')).get('property','${n:0:3}'))" 2>/dev/null || echo ${n:0:3})
   extra=$(python3 -c "import json;print(' '.join(json.load(open('$d/meta.json')).get('also_check',[])))" 2>/dev/null)
+  if grep -q '"retired"' $d/meta.json; then echo "$n: RETIRED"; continue; fi
   if ! grep -q "\"property_id\": \"$pid\"" MANIFEST.json; then echo "$n: SKIP (no check for $pid yet)"; continue; fi
   git -C /repo apply /verif/$d/patch.diff || { echo "$n: patch does not apply"; continue; }
   verdict=MISSED
